@@ -15,7 +15,11 @@ Record modfacts := {
   mf_module : string;
   mf_genesis_fields : list string;     (* fields of the GenesisState proto struct (.pb.go) *)
   mf_init_reads : list string;         (* GenesisState fields InitGenesis reads *)
-  mf_export_writes : list string       (* GenesisState fields ExportGenesis fills *)
+  mf_export_writes : list string;      (* GenesisState fields ExportGenesis fills *)
+  (* collections (by the Go field name the generated [coll] carries) that InitGenesis stores into /
+     ExportGenesis loads from, directly or through module functions it calls *)
+  mf_init_stores : list string;
+  mf_export_loads : list string
 }.
 
 Inductive cls :=
@@ -95,12 +99,31 @@ Definition fields_all_used (fs : list modfacts) : bool :=
        existsb (fun e => match e with (m, _, _, c) =>
           String.eqb m (mf_module x) && match cls_field c with Some g => String.eqb g f | None => false end end) classification)
       (mf_genesis_fields x)) fs.
+(** 5. the collection itself: a carried collection is loaded by ExportGenesis and stored by InitGenesis;
+    a re-derived / replaced one (and a derived key set) is stored by InitGenesis.  Collections are
+    matched by (module, namespace); the Go names come from the generated facts, so a rename is harmless. *)
+Definition coll_name (cs : list coll) (m : string) (ns : nat) : option string :=
+  match find (fun c => String.eqb m (cl_module c) && Nat.eqb ns (cl_ns c) && negb (cl_transient c)) cs with
+  | Some c => Some (cl_name c) | None => None end.
+Definition collections_wired (cs : list coll) (fs : list modfacts) : bool :=
+  forallb (fun e => match e with (m, ns, ctor, c) =>
+     match coll_name cs m ns, find_mod m fs with
+     | Some n, Some x =>
+         match c with
+         | Carried _ | CarriedExcept _ _ => in_s n (mf_init_stores x) && in_s n (mf_export_loads x)
+         | Rederived _ | Replaced _ => in_s n (mf_init_stores x)
+         | DerivedFrom _ => String.eqb ctor "NewMultiIndex" || in_s n (mf_init_stores x)
+         end
+     | _, _ => false
+     end end) classification.
+
 Definition modules_complete (fs : list modfacts) : bool :=
   forallb (fun m => match find_mod m fs with Some _ => true | None => false end)
     ["evm"; "oracle"; "inflation"; "epochs"; "sudo"; "tokenfactory"; "devgas"].
 
 Definition shape_ok (cs : list coll) (fs : list modfacts) : bool :=
-  all_collections_classified cs && classification_current cs && carriers_wired fs && fields_all_used fs && modules_complete fs.
+  all_collections_classified cs && classification_current cs && carriers_wired fs && fields_all_used fs &&
+  collections_wired cs fs && modules_complete fs.
 
 (** raw-KV view: store order used by the harness, and the namespaces whose raw bytes may differ
     across the round trip (exactly the collections classified with an exception) *)
